@@ -337,4 +337,19 @@ theorem C01_named_dispatch_sites :
     Gen.namedDispatch.map (·.fn) = ["BuildQuerySQL", "BuildQuerySQL", "DB.Raw", "DB.Select", "DB.Exec", "Statement.AddVar", "Statement.BuildCondition"] ∧
     ∀ s ∈ Gen.namedDispatch, namedDispatchOk s = true := by decide
 
+/-- the reflect-kind switches the model transcribes: which kinds count as "a list" (`expandElems`, `Val.list`: Slice AND
+    Array) and which test keeps a byte string as ONE bound value (`Val.bytes`: the element TYPE is exactly `uint8`, so a
+    slice of a named uint8 enum type is a list of numbers, `Val.list`), empty first (`(NULL)` resp. `AddVar(nil)`) -/
+def modelKindCases : List (String × String × List String) := [
+  ("Statement.AddVar", "reflect.Slice, reflect.Array", ["rv.Len() == 0", "rv.Type().Elem() == reflect.TypeOf(uint8(0))"]),
+  ("Statement.AddVar", "default", []),
+  ("Expr.Build", "reflect.Slice, reflect.Array", ["rv.Len() == 0"]),
+  ("Expr.Build", "default", []),
+  ("NamedExpr.Build", "reflect.Struct", []),
+  ("NamedExpr.Build", "reflect.Slice, reflect.Array", ["rv.Len() == 0"]),
+  ("NamedExpr.Build", "default", [])
+]
+
+theorem C01_kind_cases_model : Gen.kindCases.map (fun k => (k.fn, k.kinds, k.conds)) = modelKindCases := by decide
+
 end Gorm
